@@ -24,7 +24,7 @@ RULE = ("operation histories of length 1..40 over 2..6 slots x 1..3 sub-automati
         "values in and outside [0,1], handleMidi with a handful of controllers on 3 channels (bound, unbound) and NRPN "
         "sequences 99/98/6/38 (complete, partial, interleaved); initial NRPN registers -1 or arbitrary.  Non-trivial = "
         "a learn request is served or a bound controller drives a slot or a message is emitted.")
-TRUSTED = ["ORACLES of the log-scale theorems (C19_log_in_range, C19_log_monotone): libm's logf/expf are arbitrary "
+TRUSTED = ["ORACLES of the log-scale theorems (C19_log_in_range, C19_log_monotone_partial, the log clause of C19_in_range_history): libm's logf/expf are arbitrary "
            "functions constrained only by exp_mono (expf monotone on finite arguments), log_mono (logf finite and "
            "monotone on finite positive arguments) and roundtrip (expf(logf x) finite and within relative 1e-5 of x); the "
            "'orc' stream samples these three hypotheses on the libm the harness is linked with on every run",
@@ -36,8 +36,16 @@ TRUSTED = ["ORACLES of the log-scale theorems (C19_log_in_range, C19_log_monoton
 ASSUMPTIONS = ["createBinding is called with a slot index inside the array (the code has no range check there)",
                "MIDI channel and controller numbers are non-negative; data bytes small enough that (hi<<7)+lo does not overflow",
                "in-range, address and type are checked for every slot value, gain and offset (infinities, NaN and "
-               "overflowing gains included); monotonicity and the default linear map for finite slot values; "
-               "int-typed parameters have integer bounds below 2^24",
+               "overflowing gains included); monotonicity for every slot value that is a number (an infinite one "
+               "falls into the finding class infinite-slot-value = negation of 'finite32 v' of C19_monotone_partial); "
+               "the default linear map for slot values in [0,1], bit-exactly clamp(v*(max-min)+min) in float "
+               "arithmetic (rounded for int parameters) - no tolerance; a linear parameter whose default control "
+               "points are not bit-exactly its bounds misses it by a few ulp: finding class default-points-inexact "
+               "(= negation of the side condition of C19_default_linear_partial, and the emitted value must be "
+               "exactly the mapping through the control points updateMapping computes)",
+               "the slot value set by the message that completes the learning of an NRPN is not specified by the "
+               "text (the code uses the last data byte / 127, later drives the 14-bit value / 16383): that one "
+               "emission is judged for address, type and range only",
                "log-scale parameters: values compared within a relative tolerance of 1e-5 (expf/logf are libm's); "
                "model and implementation are not compared bit-exactly on log-scale values (masked in canon)",
                "a learn request of a slot that is already waiting or already bound to a CC is ignored (as coded); "
@@ -281,6 +289,12 @@ class Ref:
             self.feat.add("learn-served")
             if self.queue:
                 self.feat.add("learn-served-with-others-waiting")
+            if table is self.nrpn:
+                # the text does not say which slot value the message that completes the
+                # learning of an NRPN sets (data byte or 14-bit value): the emission is
+                # judged for address, type and range only (slot value None)
+                self.feat.add("nrpn-learn-first-drive")
+                return 0, [(i, None)]
             return 0, [(i, f32(val / 127.0))]
         return 0, []
 
@@ -349,11 +363,34 @@ def predict(case):
 
 TOL = 1e-5
 
+def lin32(v, a, b):
+    """float v*(b-a)+a as C evaluates it on floats (three roundings)"""
+    return f32(f32(v * f32(b - a)) + a)
+
+def clamp32(x, mn, mx):
+    return mx if x > mx else (mn if not (x >= mn) else x)
+
+def roundf(x):
+    return math.floor(x + 0.5) if x >= 0 else -math.floor(-x + 0.5)
+
+def default_points(lo, hi):
+    """the control points updateMapping computes at gain 100 / offset 0 (float/double mix of
+    automations.cpp:111-129, written from the source, not from the Coq model); used ONLY by
+    the classifier of the finding class default-points-inexact"""
+    center = f32(float(f32(lo + hi)) * (0.5 + 0.0 / 100.0))
+    rng_ = f32(float(f32(f32(hi - lo) * 100.0)) / 100.0)
+    return f32(center - rng_ / 2.0), f32(center + rng_ / 2.0)
+
+def default_points_exact(lo, hi):
+    """= the side condition of C19_default_linear_partial (decidable)"""
+    a, b = default_points(lo, hi)
+    return bits_of(a) == bits_of(lo) and bits_of(b) == bits_of(hi)
+
 def check_value(sb, v, ty, bits, seen_all):
     """the clauses about one emitted value; returns failure text or None"""
     if sb.ty == "T":
-        # default linear map of 0..1 onto 0..1, true above one half
-        if sb.egain == 100.0 and sb.eoff == 0.0 and abs(v - 0.5) > 1e-6:
+        # default linear map of 0..1 onto 0..1 (exact: v*1+0), true above one half
+        if v is not None and sb.egain == 100.0 and sb.eoff == 0.0 and v == v:
             if (ty == "T") != (v > 0.5):
                 return "toggle: slot value %r gives %s" % (v, ty)
         return None
@@ -367,9 +404,12 @@ def check_value(sb, v, ty, bits, seen_all):
     # log scale: [min*(1-eps), max*(1+eps)] as in C19_log_in_range
     if not ((lo * (1 - TOL) <= out <= hi * (1 + TOL)) if sb.log else (lo <= out <= hi)):
         return "in-range: value %r outside the declared [%r, %r]" % (out, lo, hi)
-    if lo <= hi and math.isfinite(v):
-        # monotone for positive gain (finite slot values: an infinite slot value times a zero
-        # range is NaN, which the repaired clamp sends to the minimum)
+    if v is None:
+        return None
+    if lo <= hi and v == v:
+        # monotone for positive gain.  Infinite slot values are judged too ("values in and
+        # outside [0,1]"): an infinite slot value times a zero range is NaN, which the clamp
+        # sends to the minimum - finding class infinite-slot-value (C19_monotone_infinite_refuted)
         seen = seen_all.setdefault(sb.key, [])
         if sb.egain > 0:
             for v0, o0 in seen:
@@ -383,14 +423,16 @@ def check_value(sb, v, ty, bits, seen_all):
         if sb.egain == 100.0 and sb.eoff == 0.0 and 0.0 <= v <= 1.0:
             if sb.log:
                 exp = math.exp(math.log(lo) + v * (math.log(hi) - math.log(lo)))
-                if abs(out - exp) > 3 * TOL * abs(exp):
+                if abs(out - exp) > TOL * abs(exp):
                     return "default-linear(log): slot value %r gives %r, expected %r" % (v, out, exp)
             else:
-                exp = lo + v * (hi - lo)
+                # "linear-scale parameters exactly": the float evaluation of v*(max-min)+min,
+                # clamped; no tolerance.  Ranges whose default control points are not exactly
+                # the bounds miss it by a few ulp: finding class default-points-inexact
+                exp = clamp32(lin32(v, lo, hi), lo, hi)
                 if sb.ty == "i":
-                    if abs(out - exp) > 0.5 + 1e-4 * max(1.0, abs(hi - lo)):
-                        return "default-linear: slot value %r gives %r, expected round(%r)" % (v, out, exp)
-                elif abs(out - exp) > 2e-6 * max(abs(lo), abs(hi), abs(hi - lo)):
+                    exp = roundf(exp)
+                if out != exp:
                     return "default-linear: slot value %r gives %r, expected %r" % (v, out, exp)
     return None
 
@@ -406,6 +448,7 @@ def spec_check(case, impl):
     if len(got) != len(exp):
         return "shape: %d fields for %d operations" % (len(got), len(exp))
     seen_all = {}
+    soft = None
     for i, ((ret, em, state), g) in enumerate(zip(exp, got)):
         mt = FIELD.match(g)
         if not mt:
@@ -431,8 +474,13 @@ def spec_check(case, impl):
                 return "type: operation %d: /%s gets type %s, parameter type is %s" % (i, name, ty, sb.ty)
             fail = check_value(sb, v, ty, int(bits) if bits else 0, seen_all)
             if fail:
-                return "%s (operation %d, /%s)" % (fail, i, name)
-    return None
+                fail = "%s (operation %d, /%s)" % (fail, i, name)
+                # a failure that falls into a finding class does not end the evaluation:
+                # everything after it is still judged, it is reported only if nothing else fails
+                if classify(case, impl, fail) is None:
+                    return fail
+                soft = soft or fail
+    return soft
 
 def nontrivial(case, impl):
     if case.startswith("orc "):
@@ -464,7 +512,41 @@ def canon(case, line):
     line = LOGMSG.sub(r"\1~", line)
     return re.sub(r"1/f/[\dNa]+/[\dNa]+/1/([\dNa]+)/([\dNa]+)/[\dNa]+/[\dNa]+", r"1/f/~/~/1/\1/\2/~/~", line)
 
+DL = re.compile(r"^default-linear: slot value (\S+) gives (\S+), expected \S+ \(operation \d+, /(\w+)\)$")
+MONO = re.compile(r"^monotone: slot value (\S+) -> \S+ but (\S+) -> ")
+
 def classify(case, impl, failure):
+    """default-points-inexact: the default linear map is missed on a linear parameter whose
+    default control points (updateMapping at gain 100 / offset 0) are not bit-exactly its
+    declared bounds (= not default_points_exact, the side condition of
+    C19_default_linear_partial) AND the emitted value is exactly what the mapping through
+    those control points gives - any other deviation stays a violation.
+    infinite-slot-value: the monotonicity clause fails and one of the two slot values is
+    infinite (= the negation of the hypothesis 'finite32 v' of C19_monotone_partial)."""
+    m = DL.match(failure)
+    if m:
+        try:
+            v, out, name = float(m.group(1)), float(m.group(2)), m.group(3)
+            ty, mn, mx, flags = parse(case)[2][name]
+            if ty not in "if" or "l" in flags:
+                return None
+            lo, hi = f32(float(mn)), f32(float(mx))
+        except (KeyError, ValueError):
+            return None
+        if default_points_exact(lo, hi):
+            return None
+        a, b = default_points(lo, hi)
+        exp = clamp32(lin32(v, a, b), lo, hi)
+        if ty == "i":
+            exp = roundf(exp)
+        return "default-points-inexact" if out == exp else None
+    m = MONO.match(failure)
+    if m:
+        try:
+            v0, v = float(m.group(1)), float(m.group(2))
+        except ValueError:
+            return None
+        return "infinite-slot-value" if math.isinf(v0) or math.isinf(v) else None
     return None
 
 def minimise(case, impl, failure, run):
@@ -493,11 +575,18 @@ def minimise(case, impl, failure, run):
 TECHNIQUE = ("Coq proofs: refinement of the learn bookkeeping (per-slot integers) to a FIFO queue over all operation "
              "histories, uniqueness of bindings, clamp/rounding facts of the output mapping on Flocq's IEEE-754 model "
              "+ differential correspondence (bit-exact for linear parameters) against the real AutomationMgr under ASan")
-LEVEL_TEXT = ("For every history of create/clear/MIDI operations the model's learning/midi_cc/midi_nrpn integers are the "
-              "image of a FIFO queue of requesting slots (theorems C19_queue_inv, C19_learn_fifo), bound controllers are "
-              "unique and drive exactly their slot (C19_bound_drives_own); every emitted message has the bound address and "
-              "type, its value is inside [min,max] by the clamp, toggles are booleans; monotonicity and the default linear "
-              "map are proved on the bit-level float model.  The model is tied to the code on every run.")
+LEVEL_TEXT = ("For every history of ALL operations of the full model m_run (the function the correspondence run executes) "
+              "the learning/midi_cc/midi_nrpn integers are the image of a FIFO queue of requesting slots run on the "
+              "projected history (C19_history_projection, C19_learn_fifo, C19_queue_inv, C19_midi_drives), bound "
+              "controllers are unique and drive exactly their slot (C19_bound_drives_own); every emitted message has the "
+              "address and type of a parameter that a createBinding of the history accepted and a value inside that "
+              "parameter's DECLARED range - linear float by the clamp, log scale within eps under the libm hypotheses, int "
+              "for ordered integral bounds, toggles booleans; the undefined int conversion only without such bounds "
+              "(C19_in_range_history, invariant sub_decl: gain/offset/updateMapping never change min/max/scale); "
+              "monotone for finite slot values (C19_monotone_partial, refuted for infinite ones: finding "
+              "infinite-slot-value); default linear map exact when the default control points are the bounds "
+              "(C19_default_linear_partial, C19_default_points_exact[_int]), refuted otherwise (finding "
+              "default-points-inexact).  The model is tied to the code on every run.")
 LEVEL_NOTE = ("Trusted: Coq kernel, Flocq 4.1 (its IEEE-754 formalisation and, for the float theorems, the standard "
               "library's real-number axioms), extraction, OCaml driver (atof/logf/expf oracles), harness, generator, Python "
               "reference machine.  The C++ code is modelled by hand and related to the model only by the correspondence run. "
